@@ -4,5 +4,17 @@ TEXT = {
  "C01": ("Reference-model runtime monitor: every real single-node validation (fail-fast and collecting) of a parent whose children follow a generated sequence is compared with an independent three-valued reference language built from rules.json as loaded; workload = W-method conformance suite per rule plus all short sequences. Right level because the property is a per-input equality with a regular language: a complete conformance suite plus exhaustive short sequences is the strongest thing an execution-observing oracle can give.",
          "Held on the sequences run; completeness of the suite assumes the validator is finite-state with <= k extra states (k=0 quick, 2-3 thorough). Oracle = the author's reading of the statement (strict/lenient disagreement masked). Trusted: CPython, the harness, two cross-checked reference implementations.",
          "reference-model monitor + W-method conformance suite over real validate.node calls", "4/C01"),
+ "C02": ("Reference-model runtime monitor over partitioned input classes: every real single-node validation (both modes) of a node carrying a generated content value is compared with a three-valued classifier written from the statement (regular expressions, calendar and exact decimal arithmetic; never Python's parsers). Class tables with exact boundaries plus dense random values and near-misses per constraint kind.",
+         "Held on the values run. Cases the statement leaves open (lenient spellings a parser may tolerate) are executed but not compared; the mask list is in the evidence assumptions. Trusted: CPython, harness, the classifier's reading of 'canonical form'.",
+         "reference-model monitor (three-valued content classifier) over class tables + random near-misses", "4/C02"),
+ "C03": ("Exhaustive runtime enumeration of the attribute abstraction the property quantifies over, every assignment judged in both modes by a 20-line evaluator over the attribute table; introspection queries compared with the observed behaviour of validation.",
+         "Exhaustive over {absent, listed values, unlisted value, three near-misses} per declared attribute x foreign attribute yes/no for every rule in the loaded table; thorough adds exotic values and insertion orders. Trusted: CPython, harness.",
+         "exhaustive enumeration + per-case evaluator oracle on real validate.node calls", "4/C03"),
+ "C10": ("Complete enumeration of the shipped configuration through the public API: every element->rule entry, every rule (independent structural parser + live validation exercising each declared content rule), every permitted child name, and per element a generated minimal tree that the real validate.tree must accept.",
+         "Exhaustive over the tables as loaded at run time. 'Some tree validates' is shown constructively by the generator; an element without a finite valid tree is reported. Three unknown child names are known findings.",
+         "complete table enumeration with structural checker + live validate.tree of generated minimal trees", "4/C10"),
+ "C17": ("Reference-model runtime monitor: every real child_insert_index / is_allowed_child answer is judged against the declared order and against the reference language (C01's automata): bounds, order preservation, and 'if some position restores validity the suggested one does'.",
+         "Held on all sequences up to the length bound x all candidates plus random delete-one-reinsert cases. Oracle shares C01's reading of the children section. Trusted: CPython, harness, relang.",
+         "reference-model monitor over enumerated (sequence, candidate) cases", "4/C17"),
 }
 PENDING_REASON = "check not built yet in this revision of /verif (planned, see DESIGN.md section 4); not claimed until its monitor exists"
